@@ -45,7 +45,7 @@ def run_case(case, rng):
         raise Inconclusive("reference MDP solve not certified")
     gamma = sp.gamma
     eps = rng.choice([0.1, 0.01])
-    horizon = rng.choice([None, None, 3, 10])
+    horizon = rng.choice([None, None, 3, 10, 1, 2])
     minexp = rng.choice([1, 2, 4, 6])
     special = sp.meta.get("special")
     case.family = str(special)
